@@ -183,6 +183,8 @@ class FortranCodegen(Stringifier):
             spec += self.join_lines(*access_spec) + '\n'
             if decl_part:
                 spec += self.visit(decl_part, **kwargs) + '\n'
+            # join_lines adds the line break after the spec
+            spec = spec[:-1]
         else:
             spec = self.visit(o.spec, **kwargs)
         self.depth -= self.style.module_spec_indent
